@@ -266,7 +266,7 @@ func c07(c *rt.Ctx) {
 			// the scan and the append form one critical section: no explicit Unlock between reading the list and appending
 			for _, in := range an.Instrs(fn, false) {
 				lk, ok := in.(*ssa.Lookup)
-				if !ok || !isFieldMap(memdb + ".entries")(lk.X) || !an.InstrReaches(lk, up) {
+				if !ok || !isFieldMap(memdb+".entries")(lk.X) || !an.InstrReaches(lk, up) {
 					continue
 				}
 				u := an.PathThrough(lk, up, func(x ssa.Instruction) bool {
